@@ -41,6 +41,29 @@ theorem getShred_flag (sd : SlotData) (h : H) (bd : BlockData) (l i j : Nat) (s 
     · intro h; injection h with h; exact h.symm
     · intro h; rw [h]
 
+theorem blockData_tyInv (sd : SlotData) (h : H) (bd : BlockData) (hs : SInv sd) (hb : blockData sd h = some bd) :
+    TyInv bd := by
+  unfold blockData at hb
+  split at hb
+  · split at hb
+    · simp at hb; subst hb; exact hs.typ.1
+    · exact hs.typ.2 h bd hb
+  · exact hs.typ.2 h bd hb
+
+/-- a served shred has the data/coding type that fits its index (D15 `fix:`: nothing else is ever stored) -/
+theorem getShred_ty (sd : SlotData) (h : H) (i j : Nat) (s : Shred) (hs : SInv sd)
+    (hg : getShred sd h i j = some s) : s.ty = true := by
+  cases hb : blockData sd h with
+  | none => simp [getShred, hb] at hg
+  | some bd =>
+    have hf := blockData_tyInv sd h bd hs hb
+    simp only [getShred, hb, Option.bind_some] at hg
+    cases harr : bd.shreds i with
+    | none => simp [harr] at hg
+    | some arr =>
+      simp only [harr, Option.bind_some] at hg
+      exact hf i arr j s harr hg
+
 theorem present_head (arr : ShredArr) (s0 : Shred) (h : arr 0 = some s0) : (present arr).head? = some s0 := by
   unfold present
   have : TOTAL_SHREDS = 63 + 1 := rfl
@@ -167,7 +190,7 @@ theorem answer_held_verifies (sd : SlotData) (b : Bid) (blk : Block) (hs : SInv 
       ∀ i, i ≤ l → ∃ root π, answer sd (.root b i) = some (.sliceRoot (.root b i) root π) ∧
         checkProof root i b.hash π = true ∧
         ∀ j, j < TOTAL_SHREDS → ∃ s, answer sd (.shred b i j) = some (.shred (.shred b i j) b.slot s true) ∧
-          s.slice = i ∧ s.idx = j ∧ s.root = root ∧ s.isLast = decide (i = l) := by
+          s.slice = i ∧ s.idx = j ∧ s.root = root ∧ s.isLast = decide (i = l) ∧ s.ty = true := by
   have hhash := getBlock_hash sd b.hash blk hs.ok hheld
   unfold getBlock at hheld
   cases hb : blockData sd b.hash with
@@ -201,7 +224,8 @@ theorem answer_held_verifies (sd : SlotData) (b : Bid) (blk : Block) (hs : SInv 
         exact this
       · intro j hj
         obtain ⟨s, hs1, hs2, hs3, hs4⟩ := h4 j hj
-        exact ⟨s, by simp only [answer, hs1], hs2, hs3, hs4, getShred_flag sd b.hash bd l i j s hs hb hl hs1⟩
+        exact ⟨s, by simp only [answer, hs1], hs2, hs3, hs4, getShred_flag sd b.hash bd l i j s hs hb hl hs1,
+          getShred_ty sd b.hash i j s hs hs1⟩
 
 
 /-! ### a peer that holds the leader's block answers with `honestResp` -/
